@@ -196,7 +196,7 @@ pub fn run(eng: &mut Engine) {
         PartCfg::new(
             "faults",
             "small sessions (all schemes, cenc, empty objects, 1-2 objects, 1-2 transfers, FDT repeats) x histories (clean, lossy, duplicated, reordered, cut at any point then receiver dropped) x writer faults (open fails, n-th write fails, builder answers ObjectAlreadyReceived/Abort) x foreign FDT without FEC-OTI attributes; typestate automaton per writer + prefix/complete conditions + all opened writers terminated after drop; non-trivial = a fault was injected or the receiver was dropped with a writer open or an object is empty; distinct by case",
-            tier.pick(150_000, 4_000_000),
+            tier.pick(400_000, 8_000_000),
         ),
         case_strategy,
         run_case,
